@@ -430,7 +430,7 @@ from hypothesis import strategies as st
 
 A_KINDS = ["a_value", "a_value", "a_value_lastrec", "a_value_lastrec", "a_att_value", "a_att_type", "a_att_len", "a_att_del",
            "a_name_dim", "a_name_var", "a_name_att", "a_dimlen", "a_numrecs", "a_numrecs", "a_version", "a_var_dims", "a_var_dims"]
-C_KINDS = ["c_bad_tag", "c_tag0_nelems", "c_name_pad", "c_value_pad", "c_nelems_plus", "c_begins", "c_begin_in_header", "c_bad_type",
+C_KINDS = ["c_bad_tag", "c_tag0_nelems", "c_name_pad", "c_value_pad", "c_nelems_plus", "c_begins", "c_begin_in_header", "c_bad_type", "c_bad_type",
            "c_truncated", "c_neg_dimlen", "c_dimid", "c_magic", "c_second_unlimited", "c_unlimited_pos"]
 ALIGNS = [4, 4, 8, 16, 64, 256, 512]
 BIG = 2 ** 48
@@ -981,7 +981,8 @@ def inject(base, fb, d):
         if not cands:
             return None
         lab = cands[p[0] % len(cands)]
-        bad = [0, 12, 13, 255, 0x01000000, 0xFFFFFFFF] + ([7, 8, 9, 10, 11] if fb.version != 5 else [])
+        # values outside 1..11, and for CDF-1/2 the CDF-5-only types 7..11 (weighted: the only format-dependent rule)
+        bad = [0, 12, 13, 255, 0x01000000, 0xFFFFFFFF] + ([7, 8, 9, 10, 11, 7, 9, 10, 11] if fb.version != 5 else [])
         t = bad[p[1] % len(bad)]
         put(lab, t)
         info["desc"] = "%s = %d (CDF-%d)" % (lab, t, fb.version)
